@@ -23,7 +23,7 @@ PROPS = {
         "technique": "Lean 4 invariant proof by induction over label sequences + translated config functions + model/implementation correspondence",
         "monitors": ["C09"],
         "extra": ["tables"],
-        "corr": corr(["burst", "mixed", "timeouts"]),
+        "corr": corr(["shutdown", "burst", "mixed", "timeouts"]),
         "extract_items": ["DEFAULT_MAILBOX_CAPACITY", "set_default_mailbox_capacity", "spawn_capacity", "spawn_with_mailbox_capacity"],
         "assumptions": COMMON_ASSUME + ["a granted-but-unpushed permit reserves a slot (the bound is on pushed + granted)"],
     },
@@ -107,7 +107,7 @@ PROPS.update({
         "technique": "Lean 4 invariant proofs + progress theorem over label sequences + extraction of the reply-wait protocol + correspondence",
         "extra": ["stress"],
         "monitors": ["C03"],
-        "corr": corr(["shutdown", "burst", "mixed", "handles", "timeouts"]),
+        "corr": corr(["shutdown", "burst", "mixed", "handles", "timeouts", "idle"]),
         "extract_items": ["ask_wait_watches_closed"],
         "assumptions": COMMON_ASSUME + ["Sender::closed() completes once the receiver is closed or dropped"],
     },
